@@ -266,6 +266,25 @@ def run(ctx):
     for _, i in late:
         words += i.words()
     late_req = "loadasm " + instgen.to_bytes(words).hex()
+    # modules holding an instruction of (nearly) the largest size the format can express: must be accepted and come back word for word
+    # (implementation only, same oracle; see common.scale_modules)
+    from props import common as _common
+    scale = []
+    for label, sinsts, k in _common.scale_modules(g, ctx.tier):
+        w2 = instgen.header(version=0x00010300, bound=70000)
+        for i_ in sinsts:
+            w2 += i_.words()
+        for ch in ("loadasm", "loadasmw"):
+            r = ch + " " + instgen.to_bytes(w2).hex()
+            scale.append(r)
+            oracle.add_same(r, w2)
+
+    def scale_oracle(req, resp):
+        if not resp.startswith("ok ") and not resp.startswith("panic"):
+            return "a well-formed module was not loaded: " + resp[:120]
+        return oracle(req, resp)
+    found_scale = C.oracle_search(ctx, scale, scale_oracle, "loadasm-scale")
+    ctx.oblige(f"oracle:load-then-assemble at the largest instruction sizes ({len(scale)} requests, implementation only)", not found_scale)
     if broken:
         found = C.oracle_search(ctx, reqs, oracle, "loadasm")
         ctx.log(f"tie broken; oracle search on the implementation found a failing input: {found}")
